@@ -121,6 +121,8 @@ def check_sink(ck: Checker, f: Func, sink: Sink, kind: str, rule: str) -> None:
         viol(what, f"{len(props)} property loops")
     else:
         lp = props[0]
+        if lp.filters:
+            raise Unsupported(f"{label}: a property is skipped when `{lp.filters[0]}`", lp.node)
         meth, call, wrapper = _iter_call(lp)
         sig = ck.repo.func("pyoak.node", "ASTNode.get_properties").node
         eff = _call_flags(call, sig)
@@ -153,6 +155,9 @@ def check_sink(ck: Checker, f: Func, sink: Sink, kind: str, rule: str) -> None:
     else:
         lp = kids[0]
         meth, call, wrapper = _iter_call(lp)
+        if lp.filters:
+            viol(f"{label} receives every child (each position of each child field, whatever the field's flags)",
+                 f"a child is left out of the digest when `{lp.filters[0]}` (children always count: only properties may be non-comparable)", lp.node, positive=True)
         if meth != "get_child_nodes_with_field":
             viol(what, f"children enumerated with {meth} (no field / index)", lp.node)
         elif wrapper in ("set", "frozenset"):
